@@ -1,26 +1,16 @@
-(* Layer mig — concrete witnesses on which the faithful model violates two clauses of C09
-   (closed by computation; both are replayed on the real code by checks/c09.py on every run:
-   corpus/mig/h4_idmismatch and corpus/mig/h5_bigversion). *)
+(* Layer mig — the one corner the repaired code leaves (closed by computation): a version-table value
+   outside the u32 range — which the migrator never writes — is read modulo 2^32 (`as u32`, lib.rs:302/320). *)
 From VV.MIG Require Import Spec.
 
-(* D9: a recorded id that differs from the compiled id is not reported *)
-Definition idm_o : opts := mkOpts Sqlite "" None false.
-Definition idm_ms : list mig := [mkMig 1 "bbb" [mkAct [] [] ["CREATE TABLE t (id integer)"]]].
-Definition idm_d : dbstate := mkDb (Some (mkVt true [(1%Z, "aaa")])) ["CREATE TABLE t (id integer)"].
+Definition wrap_o : opts := mkOpts Sqlite "" None false.
+Definition wrap_ms : list mig :=
+  [mkMig 1 "a" [mkAct [] [] ["CREATE TABLE t (id integer)"]]; mkMig 2 "b" [mkAct [] [] ["ALTER TABLE t ADD COLUMN a text"]]].
+(* a foreign row with version 2^32 + 1 and no id *)
+Definition wrap_d : dbstate := mkDb (Some (mkVt true [(4294967297%Z, "")])) [].
 
-Lemma id_mismatch_refuted : exists o ms d,
-  ascending ms = true /\ at_version 1 d = true /\ id_conflict ms d = true /\
-  i_res (snd (run [] o ms d)) = Some ROk /\ db_rows (fst (run [] o ms d)) = db_rows d.
-Proof. exists idm_o, idm_ms, idm_d. vm_compute. repeat split. Qed.
-
-(* a version >= 2^31 is read back as 0 (lib.rs:293): the second start re-executes the migration *)
-Definition big_ms : list mig :=
-  [mkMig 2147483648 "0190d000-0000-7000-8000-000000000001"
-     [mkAct ["PRAGMA user_version = 7"] ["PRAGMA user_version = 7"] ["PRAGMA user_version = 7"]]].
-
-Lemma run_idempotent_full_refuted : exists o ms k d,
-  ascending ms = true /\ at_version k d = true /\
-  let d1 := fst (run [] o ms d) in
-  i_res (snd (run [] o ms d1)) = Some (RErr DatabaseError) /\
-  txn_execs (i_log (snd (run [] o ms d1))) = ["PRAGMA user_version = 7"].
-Proof. exists (mkOpts Sqlite "" None false), big_ms, 0%N, (mkDb None []). vm_compute. repeat split. Qed.
+Lemma tampered_version_wraps : exists o ms d,
+  ascending ms = true /\ versions_u32 ms = true /\ rows_u32 d = false /\
+  i_res (snd (run [] o ms d)) = Some ROk /\
+  txn_execs (i_log (snd (run [] o ms d))) =
+    ["ALTER TABLE t ADD COLUMN a text"; "INSERT INTO ""vespertide_version"" (version, id) VALUES (2, 'b')"].
+Proof. exists wrap_o, wrap_ms, wrap_d. vm_compute. repeat split. Qed.
